@@ -26,6 +26,12 @@ len - max of an ascending sort.  C18.5 snapshot schema agreement: the column
 download_batch selects is one upload_batch inserts; the INSERT lists five
 columns in the order the callers' 5-tuples use; the delete loop takes the
 path from the first column.
+Added by the seeding rounds - C18.1 the rows inserted are the batch itself
+(the collection the deletes range over, never re-bound or sliced) and the
+snapshot is created before any delete; C18.2 the scheduled listing is the
+whole unfiltered listing and the expiry test is per event; C18.4 the history
+prune slice keeps its guard; C18.5 download column and filter are inserted
+columns, whatever the placeholder style.
 Does NOT decide retrievability from the produced snapshot nor every crash cut
 beyond the upload-before-delete ordering.
 """
